@@ -5,9 +5,12 @@ LEVEL = "model_checking"
 LEVEL_TEXT = ("Path.tla transcribes the path event loop; TLC checks AtMostOneSource / RejectedUnlessOverride / "
               "ClosedBeforeAttach on every behaviour of the bounded model; edge-covering walks of the state graph are "
               "replayed on the real pathManager+path and TLC evaluates the same monitors on the observed events")
-LEVEL_NOTE = "2 publishers, 2 readers, 1 describe; sequential requests; stale sub-stream data is covered by C17's stale guard monitor"
+LEVEL_NOTE = ("2 publishers, 2 readers, 1 describe; sequential requests; publishers write units through the (possibly stale) "
+              "sub-stream handles they hold and harness stream readers report which publisher's unit reached them; "
+              "alwaysAvailable profiles included")
 
 
 def run(ctx):
-    pathcheck.run(ctx, "C16_", ctx.pick(["pub_override", "pub_nooverride"],
-                                        ["pub_override", "pub_nooverride", "odpub_override", "rx"]), ["MonC16"])
+    pathcheck.run(ctx, "C16_", ctx.pick(["pub_override", "aa_override"],
+                                        ["pub_override", "pub_nooverride", "odpub_override", "rx", "aa_override", "aa_nooverride"]),
+                  ["MonC16"])
